@@ -85,6 +85,11 @@ impl Family for C18Family {
                 }
             }
         }
+        for op in c.actors[0].ops.iter_mut() {
+            if r.chance(1, 4) {
+                op.unknown_type = if r.bool() { vec![true; 4] } else { (0..4).map(|_| r.bool()).collect() };
+            }
+        }
         c.twin = Twin::ViaTrait;
         Scenario { family: "C18".into(), batch: if faulty { "faults" } else { "strict" }.into(), seed: master, index, body: Body::Ceremony(c) }
     }
